@@ -11,6 +11,7 @@ Open Scope Q_scope.
 Inductive uspec :=
 | USimple (rg : rgrid) (p : contract_p)
 | UContract (rg : rgrid) (p : contract_p) (mx mn : list take)
+| UMulti (rg : rgrid) (p : contract_p) (mx mn : list take) (nodes : list string) (factors : vec)
 | UStorage (rg : rgrid) (p : storage_p)
 | UTransport (rg : rgrid) (p : transport_p).
 
@@ -34,6 +35,15 @@ Definition mk_unit (g : grid) (u : uspec) : option unit_ :=
                   u_prob := {| ap_lp := add_rows (ap_lp a) (take_all_rows g rg a mx mn); ap_map := ap_map a |};
                   u_dec := if all_b eq0 ec || all_b le0 maxc || all_b ge0 minc then fun x => x else dec_split (rg_T rg);
                   u_tb := tb_contract_takes g rg p a maxc minc ec mx mn |}
+      | _, _, _, _ => None
+      end
+  | UMulti rg p mx mn nodes factors =>
+      match simple_contract g rg p, mkvec rg (cp_max p) None true, mkvec rg (cp_min p) None true, mkvec rg (cp_extra p) (Some 0) false with
+      | Some a, Some maxc, Some minc, Some ec =>
+          Some {| u_name := cp_name p;
+                  u_prob := {| ap_lp := add_rows (ap_lp a) (take_all_rows g rg a mx mn); ap_map := multi_map (ap_map a) nodes factors |};
+                  u_dec := if all_b eq0 ec || all_b le0 maxc || all_b ge0 minc then fun x => x else dec_split (rg_T rg);
+                  u_tb := tb_multi (tb_contract_takes g rg p a maxc minc ec mx mn) (cp_node p) nodes factors |}
       | _, _, _, _ => None
       end
   | UStorage rg p =>
@@ -63,6 +73,11 @@ Definition unit_hyps (g : grid) (u : uspec) : bool :=
       match mkvec rg (cp_max p) None true, mkvec rg (cp_min p) None true, mkvec rg (cp_extra p) (Some 0) false with
       | Some maxc, Some minc, Some ec => len_is maxc (rg_T rg) && len_is minc (rg_T rg) && len_is ec (rg_T rg) && all_b ge0 ec
       | _, _, _ => false end
+  | UMulti rg p _ _ _ _ =>
+      is_none (rg_minor rg) && len_is (rg_disc rg) (rg_T rg) && all_b ge0 (rg_disc rg) &&
+      match mkvec rg (cp_max p) None true, mkvec rg (cp_min p) None true, mkvec rg (cp_extra p) (Some 0) false with
+      | Some maxc, Some minc, Some ec => len_is maxc (rg_T rg) && len_is minc (rg_T rg) && len_is ec (rg_T rg) && all_b ge0 ec
+      | _, _, _ => false end
   | UStorage rg p =>
       is_none (rg_minor rg) && negb (sp_no_simult p) && is_none (sp_max_dur p) && negb (Nat.eqb (rg_T rg) 0) &&
       len_is (rg_dt rg) (rg_T rg) && len_is (rg_disc rg) (rg_T rg) &&
@@ -84,7 +99,7 @@ Ltac split_andb := repeat match goal with H : andb _ _ = true |- _ => apply andb
 (* passing the boolean test puts the unit under the instance theorems *)
 Theorem mk_unit_ok g u un : mk_unit g u = Some un -> unit_hyps g u = true -> u_ok un.
 Proof.
-  destruct u as [rg p|rg p mx mn|rg p|rg p]; cbn [mk_unit unit_hyps]; intros Hm Hh.
+  destruct u as [rg p|rg p mx mn|rg p mx mn nodes factors|rg p|rg p]; cbn [mk_unit unit_hyps]; intros Hm Hh.
   - destruct (simple_contract g rg p) as [a|] eqn:Ea; [|discriminate].
     destruct (mkvec rg (cp_max p) None true) as [maxc|] eqn:E1; [|discriminate].
     destruct (mkvec rg (cp_min p) None true) as [minc|] eqn:E2; [|discriminate].
@@ -103,6 +118,19 @@ Proof.
     apply (contract_takes_unit_ok g rg p a maxc minc ec); auto using is_none_spec, len_is_spec.
     + apply all_ge0_nth; auto using len_is_spec.
     + apply all_ge0_nth; auto using len_is_spec.
+  - destruct (simple_contract g rg p) as [a|] eqn:Ea; [|discriminate].
+    destruct (mkvec rg (cp_max p) None true) as [maxc|] eqn:E1; [|discriminate].
+    destruct (mkvec rg (cp_min p) None true) as [minc|] eqn:E2; [|discriminate].
+    destruct (mkvec rg (cp_extra p) (Some 0) false) as [ec|] eqn:E3; [|discriminate].
+    inversion Hm; subst un. clear Hm.
+    split_andb.
+    assert (U : u_ok {| u_name := cp_name p;
+                       u_prob := {| ap_lp := add_rows (ap_lp a) (take_all_rows g rg a mx mn); ap_map := ap_map a |};
+                       u_dec := if all_b eq0 ec || all_b le0 maxc || all_b ge0 minc then fun x => x else dec_split (rg_T rg);
+                       u_tb := tb_contract_takes g rg p a maxc minc ec mx mn |}).
+    { apply (contract_takes_unit_ok g rg p a maxc minc ec); auto using is_none_spec, len_is_spec; apply all_ge0_nth; auto using len_is_spec. }
+    apply (multi_unit_ok _ (cp_node p) nodes factors U). cbn [u_prob ap_map].
+    apply (contract_map_d g rg p a maxc minc ec); auto using is_none_spec, len_is_spec; apply all_ge0_nth; auto using len_is_spec.
   - destruct (storage g rg p) as [a|] eqn:Ea; [|discriminate]. inversion Hm; subst un. clear Hm.
     split_andb.
     apply (storage_unit_ok g rg p a); auto using is_none_spec, len_is_spec.
